@@ -65,6 +65,14 @@ theorem no_panic (cap : Nat) (ops : List LOp) (next : LOp) :
 theorem oversize_refused (c : Lru) (k n : Nat) (h : n > c.cap) :
     c.insertBytes k n = (c, .tooLarge) ∧ c.prepareAdd k n = (c, .tooLarge) := Lru.oversize_refused c k n h
 
+/-- `oversize_commit_refused` (fix F-C07-d): a two-phase store whose body turned out larger than the whole cache is refused at commit
+    **without an eviction**: the entries (and their files) are exactly what they were -/
+theorem oversize_commit_refused (c : Lru) (h : Nat) (p : Pend) (hf : c.temps.find? (·.handle == h) = some p) (hbig : p.written > c.cap) :
+    (c.commit h).2 = .tooLarge ∧ (c.commit h).1.entries = c.entries ∧ (c.commit h).1.files = c.files := by
+  unfold Lru.commit
+  simp only [hf, hbig, if_true]
+  simp
+
 /-- F-C07-a, repaired in /repo: over-reservation with an empty index is refused (was a panic on the pinned tree) -/
 theorem over_reservation_refused :
     ((({ cap := 25 } : Lru).prepareAdd 1 15).1.prepareAdd 2 15).2 = .tooLarge := Lru.over_reservation_refused
